@@ -37,6 +37,8 @@ type SpecEnv struct {
 	Old   HeapView
 	Next0 string // allocation counter at function entry (for fresh())
 	Fuel  string // fuel term passed to recursive spec functions (inside their own definitions)
+	DcsOf types.Type // set while the body of the generated dcs_<T> is being evaluated
+	dcsEntered bool
 }
 
 func (e *SpecEnv) clone() *SpecEnv {
@@ -363,6 +365,13 @@ func (e *SpecEnv) selectField(v SV, f string) SV {
 		lv = v.Loc
 	} else if st, ok := derefStruct(v.Typ); ok {
 		lv = &LV{Root: st, Path: "", Base: v.Term, View: e.Cur}
+	} else if isStruct(v.Typ) && v.Term != "" {
+		// a struct VALUE (e.g. a result returned by value): project the field out of the datatype term
+		ft, ok := fieldAt(v.Typ, "", f)
+		if !ok {
+			e.fail("no field %s in %v", f, v.Typ)
+		}
+		return SV{Term: fmt.Sprintf("(%s_%s %s)", e.G.TE.SortOf(v.Typ), f, v.Term), Typ: ft}
 	} else {
 		e.fail("field %s of non-struct %v", f, v.Typ)
 	}
@@ -597,6 +606,19 @@ func (e *SpecEnv) evalCall(x SCall) SV {
 	case "cap":
 		v := arg(0)
 		return SV{Term: "(scap " + v.Term + ")", Typ: intT}
+	case "$dcsbody":
+		// body of a generated dcs_T: the field-wise expansion for the struct both arguments point to
+		a, b := arg(0), arg(1)
+		st, ok := derefStruct(a.Typ)
+		if !ok {
+			e.fail("$dcsbody of %v", a.Typ)
+		}
+		la := SV{Typ: st, Loc: &LV{Root: st, Path: "", Base: a.Term, View: e.Cur}}
+		lb := SV{Typ: st, Loc: &LV{Root: st, Path: "", Base: b.Term, View: e.Cur}}
+		ne := e.clone()
+		ne.DcsOf = st
+		t := ne.deepcopy(la, lb, nil, 0)
+		return SV{Term: t, Typ: boolT}
 	case "deepcopy":
 		// deepcopy(a, b): a is a structurally equal copy of b that shares no pointer or backing array with
 		// anything that existed at function entry; expanded from the Go type (XMLName fields excluded).
@@ -630,7 +652,7 @@ func (e *SpecEnv) evalCall(x SCall) SV {
 		// allocated after function entry (and not nil)
 		v := arg(0)
 		r := e.refOf(v)
-		return SV{Term: fmt.Sprintf("(and (not (= %s nil)) (not (alloc %s %s)))", r, r, e.Next0), Typ: boolT}
+		return SV{Term: fmt.Sprintf("(and (not (= %s nil)) (not (alloc %s %s)))", r, r, e.entryBound()), Typ: boolT}
 	case "freshArr":
 		v := arg(0)
 		// the backing array (if any) was allocated after function entry
@@ -770,16 +792,48 @@ func (e *SpecEnv) locOf(v SV) *LV {
 
 var deepcopyVarCtr int
 
+// dcsName is the generated spec function "the struct at ref a is a deep copy of the struct at ref b".
+func dcsName(t types.Type) string {
+	n, ok := t.(*types.Named)
+	if !ok {
+		return ""
+	}
+	return "dcs_" + n.Obj().Name()
+}
+
 // deepcopy expands the structural-copy predicate for two values of the same static type.
+// Named struct types go through generated spec functions dcs_T (recursive types get the fuel encoding).
 func (e *SpecEnv) deepcopy(a, b SV, stack []types.Type, depth int) string {
 	t := a.Typ
 	if a.Loc != nil {
 		t = typeAtPath(a.Loc.Root, a.Loc.Path)
 	}
-	for _, s := range stack {
-		if types.Identical(s, t) {
-			e.fail("deepcopy over recursive type %v", t)
+	// the outermost expansion inside the definition of dcs_T is T's own field list; every further
+	// occurrence of a named struct type (T included) is a call of its dcs function
+	top := false
+	if e.DcsOf != nil && !e.dcsEntered {
+		st := t
+		if p, ok := t.Underlying().(*types.Pointer); ok {
+			st = p.Elem()
 		}
+		if types.Identical(e.DcsOf, st) {
+			top = true
+			e.dcsEntered = true
+		}
+	}
+	callDcs := func(st types.Type, ra, rb string) (string, bool) {
+		name := dcsName(st)
+		if name == "" {
+			return "", false
+		}
+		nt := st.(*types.Named)
+		pf, ok := e.G.Pures[nt.Obj().Pkg().Name()+"."+name]
+		if !ok {
+			return "", false
+		}
+		pt := types.NewPointer(st)
+		v := e.callPureVals(pf, []SV{{Term: ra, Typ: pt}, {Term: rb, Typ: pt}})
+		return v.Term, true
 	}
 	fieldsOf := func(av, bv SV, st types.Type) string {
 		var parts []string
@@ -793,6 +847,12 @@ func (e *SpecEnv) deepcopy(a, b SV, stack []types.Type, depth int) string {
 				continue
 			}
 			fa, fb := e.selectField(av, f.Name()), e.selectField(bv, f.Name())
+			if nt, ok := st.(*types.Named); ok {
+				if _, shared := e.G.CS.Shared[nt.Obj().Name()+"."+f.Name()]; shared {
+					parts = append(parts, e.equal(fa, fb))
+					continue
+				}
+			}
 			parts = append(parts, e.deepcopy(fa, fb, append(stack, t), depth+1))
 		}
 		if len(parts) == 0 {
@@ -800,7 +860,27 @@ func (e *SpecEnv) deepcopy(a, b SV, stack []types.Type, depth int) string {
 		}
 		return "(and " + strings.Join(parts, " ") + ")"
 	}
-	if a.Loc != nil { // inline struct
+	if a.Loc == nil && isStruct(t) {
+		// a is a struct value (returned by value); b is a location, a pointer to it, or a value
+		bv := b
+		if b.Loc == nil {
+			if st, ok := derefStruct(b.Typ); ok {
+				bv = SV{Typ: st, Loc: &LV{Root: st, Path: "", Base: b.Term, View: e.Cur}}
+			}
+		}
+		return fieldsOf(a, bv, t)
+	}
+	if a.Loc != nil { // struct location
+		if a.Loc.Path == "" && b.Loc != nil && b.Loc.Path == "" && !top {
+			if c, ok := callDcs(t, a.Loc.Base, b.Loc.Base); ok {
+				return c
+			}
+		}
+		for _, s := range stack {
+			if types.Identical(s, t) {
+				e.fail("deepcopy over recursive type %v without a generated spec function", t)
+			}
+		}
 		return fieldsOf(a, b, t)
 	}
 	switch u := t.Underlying().(type) {
@@ -808,17 +888,39 @@ func (e *SpecEnv) deepcopy(a, b SV, stack []types.Type, depth int) string {
 		if !isStruct(u.Elem()) {
 			e.fail("deepcopy of pointer to %v", u.Elem())
 		}
-		return fmt.Sprintf("(and (= (= %s nil) (= %s nil)) (=> (not (= %s nil)) (and (not (alloc %s %s)) %s)))", a.Term, b.Term, a.Term, a.Term, e.Next0, fieldsOf(a, b, u.Elem()))
+		body, ok := "", false
+		if !top {
+			body, ok = callDcs(u.Elem(), a.Term, b.Term)
+		}
+		if !ok {
+			for _, s := range stack {
+				if types.Identical(s, t) {
+					e.fail("deepcopy over recursive type %v without a generated spec function", t)
+				}
+			}
+			body = fieldsOf(a, b, u.Elem())
+		}
+		return fmt.Sprintf("(and (= (= %s nil) (= %s nil)) (=> (not (= %s nil)) (and (not (alloc %s %s)) %s)))", a.Term, b.Term, a.Term, a.Term, e.entryBound(), body)
 	case *types.Slice:
 		deepcopyVarCtr++
 		iv := fmt.Sprintf("q_dc%d", deepcopyVarCtr)
 		ia := e.index(a, SV{Term: iv, Typ: types.Typ[types.Int]})
 		ib := e.index(b, SV{Term: iv, Typ: types.Typ[types.Int]})
 		body := e.deepcopy(ia, ib, append(stack, t), depth+1)
-		return fmt.Sprintf("(and (= (slen %s) (slen %s)) (=> (> (slen %s) 0) (>= (sarr %s) %s)) (forall ((%s Int)) (! (=> (and (<= 0 %s) (< %s (slen %s))) %s) :pattern ((selem %s %s)))))", a.Term, b.Term, a.Term, a.Term, e.Next0, iv, iv, iv, a.Term, body, a.Term, iv)
+		return fmt.Sprintf("(and (= (slen %s) (slen %s)) (=> (> (slen %s) 0) (>= (sarr %s) %s)) (forall ((%s Int)) (! (=> (and (<= 0 %s) (< %s (slen %s))) %s) :pattern ((selem %s %s)))))", a.Term, b.Term, a.Term, a.Term, e.entryBound(), iv, iv, iv, a.Term, body, a.Term, iv)
 	case *types.Basic:
 		return fmt.Sprintf("(= %s %s)", a.Term, b.Term)
 	}
 	e.fail("deepcopy of %v not supported", t)
 	return ""
+}
+
+
+// entryBound: allocation counter at function entry (inside spec functions: a parameter).
+func (e *SpecEnv) entryBound() string {
+	if rv, ok := e.Cur.(*recView); ok {
+		rv.used["$next0"] = true
+		return "hp_$next0"
+	}
+	return e.Next0
 }
